@@ -68,9 +68,30 @@ def arg_base(e):
             return e
 
 
+_LOCAL_ARITH = [{}]      # caller -> {local: init expr}, set per caller by x9/x8
+
+
+def simple_arith_locals(fn):
+    """locals bound exactly once (immutably) to parameter arithmetic: `let next = depth + 1;`"""
+    cnt, init = {}, {}
+    for n in sx.walk(fn['body']):
+        if n.get('k') == 'let' and n.get('pat', {}).get('k') == 'ident':
+            nm = n['pat']['n']
+            cnt[nm] = cnt.get(nm, 0) + 1
+            if 'init' in n and not n['pat'].get('mut'):
+                e = n['init']
+                if all(x.get('k') in ('path', 'lit', 'binary') for x in sx.walk(e) if isinstance(x, dict) and 'k' in x):
+                    init[nm] = e
+        if n.get('k') == 'assign' and sx.is_path(n['l_']):
+            cnt[n['l_']['p']] = cnt.get(n['l_']['p'], 0) + 2
+    return {k: v for k, v in init.items() if cnt.get(k) == 1}
+
+
 def transfer(arg, param):
     """classify an argument against the parameter it is bound to"""
     b = arg_base(arg)
+    if sx.is_path(b) and b['p'] in _LOCAL_ARITH[0] and b['p'] != param:
+        b = arg_base(_LOCAL_ARITH[0][b['p']])
     if sx.is_path(b):
         if b['p'] == param:
             return 'same', b['p']
@@ -112,6 +133,7 @@ def x9(ctx, tab, sites, scc=()):
             if len(pnames) < 2 and pn not in DEPTH:
                 continue   # single-argument helpers: the parameter's name says nothing about threading there
             n += 1
+            _LOCAL_ARITH[0] = simple_arith_locals(fn)
             kind, what = transfer(arg, pn)
             key = '%s:%s->%s:%s' % (crate, caller, callee, pn)
             where = '%s/%s:%s' % (crate, fl, arg.get('l') or call.get('l'))
@@ -224,6 +246,17 @@ def x8(ctx, tab, sites, pp):
                 rets = [x for x in sx.walk(n['t']) if x.get('k') == 'return' and 'ExceedRecursiveLimit' in sq(x)]
                 if rets:
                     guards[ctr] = (f, n['c']['op'], n.get('l'))
+            # the comparison may live in a one-expression private predicate: `if exceeds(counter) { return Err(ExceedRecursiveLimit) }`
+            if n.get('k') == 'if' and sx.is_call(n['c']) and n['c']['f']['p'] in pp.fns and len(n['c']['args']) == 1 and sx.is_path(n['c']['args'][0]):
+                h = pp.fns[n['c']['f']['p']]
+                hs = h['body']['stmts']
+                hp = [sx.pat_idents(q['pat'])[0] for q in h['sig']['params'] if q.get('k') == 'typed']
+                if len(hs) == 1 and hs[0]['k'] == 'expr' and not hs[0].get('semi') and len(hp) == 1:
+                    e_ = hs[0]['e']
+                    if e_.get('k') == 'binary' and sx.is_path(e_['l_'], hp[0]) and sx.is_path(e_['r'], limit_name):
+                        rets = [x for x in sx.walk(n['t']) if x.get('k') == 'return' and 'ExceedRecursiveLimit' in sq(x)]
+                        if rets:
+                            guards[n['c']['args'][0]['p']] = (f, e_['op'], n.get('l'))
     counters = sorted(guards)
     r.inst('guards', {'guards': {k: '%s: %s %s %s' % (v[0], k, v[1], limit_name) for k, v in guards.items()}})
     if not counters:
@@ -237,6 +270,7 @@ def x8(ctx, tab, sites, pp):
             tr = {}
             for c in counters:
                 if c in pn:
+                    _LOCAL_ARITH[0] = simple_arith_locals(tab[caller][2])
                     kind, what = transfer(call['args'][pn.index(c)], c)
                     if kind == 'same':
                         tr[c] = 'same'
@@ -352,6 +386,7 @@ def x8(ctx, tab, sites, pp):
         pn = tab[callee][3]
         for c in counters:
             if c in pn:
+                _LOCAL_ARITH[0] = simple_arith_locals(tab[caller][2])
                 kind, what = transfer(call['args'][pn.index(c)], c)
                 r.inst('entry:%s->%s:%s' % (caller, callee, c), {'entry': caller, 'counter': c, 'start': what})
                 if not ((kind == 'const' and what == '0') or (kind == 'same')):
